@@ -330,7 +330,7 @@ Definition rrset_recs (z : zone) (n : name) (t : N) : list rr :=
   match find_rs z n t with Some s => rrs_of n s | None => [] end.
 
 Definition judge (z : zone) (o : name) (e : spec_res) (ob : obs) : bool :=
-  let 'Ob rcode _ ans auth _ := ob in
+  let 'Ob rcode aa ans auth _ := ob in
   match e with
   | SOutOfFuel => false
   | SRefused => (rcode =? 5) && is_nil ans && is_nil auth
@@ -346,6 +346,8 @@ Definition judge (z : zone) (o : name) (e : spec_res) (ob : obs) : bool :=
          | ASoa => same_set auth (rrset_recs z o T_SOA)
          | AReferral c => same_set auth (rrset_recs z c T_NS)
          end
+      (* answers from the zone's own data are authoritative (a referral is accepted either way) *)
+      && match eauth with AReferral _ => true | _ => aa end
   end.
 
 (* ================================================================== *)
